@@ -102,3 +102,31 @@ Definition append (i l : val) : outcome val :=
   | VBytes xs, VNum (NInt z) => if (0 <=? z)%Z && (z <? 256)%Z then Ok (VBytes (xs ++ [Z.to_N z])) else Err EValue
   | _, _ => Err EArg
   end.
+
+(* ---------------------------------------------------------------- comparison patterns, bytes *)
+(* every link of a comparison chain accepts *)
+Fixpoint links_hold (ops : list cmpop) (args : list val) : Prop :=
+  match ops, args with
+  | op :: ops', a :: ((b :: _) as rest) => cmp_accept op a b = Ok true /\ links_hold ops' rest
+  | _, _ => True
+  end.
+(* the values at the non-literal positions, in order *)
+Fixpoint slot_values (known : list (option val)) (ret : list val) : list val :=
+  match known, ret with
+  | None :: k', v :: r' => v :: slot_values k' r'
+  | Some _ :: k', _ :: r' => slot_values k' r'
+  | _, _ => []
+  end.
+Fixpoint lits_agree (known : list (option val)) (ret : list val) : Prop :=
+  match known, ret with
+  | [], [] => True
+  | Some l :: k', v :: r' => v = l /\ lits_agree k' r'
+  | None :: k', _ :: r' => lits_agree k' r'
+  | _, _ => False
+  end.
+Definition nslots (known : list (option val)) : nat :=
+  length (filter (fun o => match o with None => true | Some _ => false end) known).
+
+
+(* a bytes value holds bytes *)
+Definition bytes_ok (l : list N) : Prop := Forall (fun b => (b < 256)%N) l.
